@@ -687,6 +687,19 @@ class Evaluator:
             raise Unsupported(f"call {ast.unparse(e)[:40]}")
         raise Unsupported(f"expression {type(e).__name__}")
 
+    def _bind_target(self, t: ast.AST, item):
+        if isinstance(t, ast.Name):
+            self.env[t.id] = item
+        elif isinstance(t, (ast.Tuple, ast.List)):
+            if isinstance(item, PyIter):
+                item = list(item)
+            if not isinstance(item, (list, tuple)) or len(item) != len(t.elts):
+                raise PyRaise("ValueError" if isinstance(item, (list, tuple)) else "TypeError")
+            for tt, x in zip(t.elts, item):
+                self._bind_target(tt, x)
+        else:
+            raise Unsupported("loop target")
+
     def _index(self, sl: ast.AST):
         if isinstance(sl, ast.Slice):
             lo = self.ev(sl.lower) if sl.lower is not None else None
@@ -800,11 +813,7 @@ class Evaluator:
                     self.steps += 1
                     if self.steps > 10000:
                         raise Unsupported("too many steps")
-                    if isinstance(st.target, ast.Name):
-                        self.env[st.target.id] = item
-                    else:
-                        for t, v in zip(st.target.elts, item):
-                            self.env[t.id] = v
+                    self._bind_target(st.target, item)
                     try:
                         self._block(st.body)
                     except _Break:
